@@ -1155,3 +1155,65 @@ class EntropyFloatScan:
 
 register(Obligation(name="C13.electronic_entropy.float64_finite_nonpositive", prop=PROP, engine="B", bounded=True, functions=["eminus.tools:electronic_entropy", "eminus.energies:get_Eentropy"],
                     run=EntropyFloatScan(), doc="BOUNDED (machine arithmetic): the entropy term is finite and <= 0 in float64 where the Fermi factor saturates"))
+
+
+# ------------------------------------------------------------------------------------------------
+# bounded: smear through the real get_Efermi (the symbolic obligation takes the Fermi level by contract)
+# ------------------------------------------------------------------------------------------------
+
+
+class SmearNative:
+    """BOUNDED: Occupations.smear with the real get_Efermi / root finder for smearing widths from 1e-3 to 2 Hartree (the root finder must be used for every
+    positive width), one or two spin channels, unequal k-point weights, spectra with gaps and degeneracies: the k-weighted fillings sum to Nelec and lie in [0, 2/Nspin]."""
+
+    def problems(self):
+        import eminus
+        from eminus.occupations import Occupations
+
+        eminus.config.backend = "numpy"
+        eminus.config.verbose = "critical"
+        rng = np.random.default_rng(5)
+        bad, n = [], 0
+        for width in (1e-3, 0.01, 0.05, 0.3, 1.0, 2.0):
+            for Nspin, Nelec, spin in ((1, 4, 0), (2, 5, 1), (2, 4, 0), (1, 3, 0)):
+                for wk in ([1.0], [0.25, 0.75], [0.5, 0.125, 0.375]):
+                    n += 1
+                    o = Occupations()
+                    o.Nelec, o.Nspin, o.spin, o.charge = Nelec, Nspin, spin, 0
+                    o.smearing = width
+                    o.wk = wk
+                    o.bands = 5
+                    o.fill()
+                    eps = np.sort(rng.uniform(-1, 1, (len(wk), Nspin, 5)), axis=-1)
+                    eps[0, 0, 1] = eps[0, 0, 2]  # a degenerate pair
+                    case = dict(smearing=width, Nspin=Nspin, Nelec=Nelec, wk=wk)
+                    try:
+                        ef = o.smear(eps)
+                    except Exception as e:  # noqa: BLE001
+                        bad.append(dict(case, raised=f"{type(e).__name__}: {e}"))
+                        continue
+                    f = np.asarray(o.f)
+                    tot = float(np.sum(np.asarray(wk)[:, None, None] * f))
+                    if abs(tot - Nelec) > 1e-8 or f.min() < -1e-14 or f.max() > 2 / Nspin + 1e-14 or not np.isfinite(float(ef)):
+                        bad.append(dict(case, weighted_filling_sum=tot, min=float(f.min()), max=float(f.max()), Efermi=float(ef)))
+        return bad, n
+
+    def __call__(self, ob, tier, seed):
+        from pycv.framework import BOUNDED_OK
+
+        try:
+            bad, n = self.problems()
+        except Exception as e:  # noqa: BLE001
+            bad, n = [dict(raised=f"{type(e).__name__}: {e}")], 0
+        if bad:
+            return Result(REFUTED, backend="native", witness=bad[0], replayed=True, replay_info=dict(failing=bad[:5], cases=n),
+                          detail=f"smeared fillings do not sum to Nelec within [0, 2/Nspin]: {bad[0]}")
+        return Result(BOUNDED_OK, backend="native", stats=dict(cases=n), detail=f"bounded: {n} cases (6 widths 1e-3..2 x 4 fillings x 3 weight sets) through the real root finder: sum to Nelec, in range")
+
+    def replay(self, wit):
+        bad, n = self.problems()
+        return bool(bad), dict(failing=bad[:5], cases=n)
+
+
+register(Obligation(name="C13.smear.native_real_root_finder", prop=PROP, engine="B", bounded=True, functions=["eminus.occupations:Occupations.smear", "eminus.tools:get_Efermi"],
+                    run=SmearNative(), doc="BOUNDED: smear through the real get_Efermi for widths 1e-3..2: weighted fillings sum to Nelec, in [0, 2/Nspin]"))
